@@ -137,9 +137,44 @@ def close(obs, q, tol=RTOL):
 
 
 # ----------------------------------------------------------------------------------------------
+# array properties: the outcome depends on the VALUES only (LinSolve!LayoutIndependent), so every array argument is
+# also handed over read-only, as a non-contiguous view, byte-swapped (as read from a FITS file), and scalars as 0-d
+# arrays; rotated over the cases by seed / case number
+# ----------------------------------------------------------------------------------------------
+LAYOUTS = ['plain', 'ro', 'nc', 'bs']
+
+
+def lay(arr, layout):
+    a = np.array(arr)
+    if layout == 'ro':
+        a.setflags(write=False)
+    elif layout == 'nc':
+        if a.ndim == 1:
+            big = np.zeros(2 * a.size + 1, dtype=a.dtype)
+            big[1::2] = a
+            a = big[1::2]
+        elif a.shape[0] % 2:
+            a = np.asfortranarray(a)
+        else:
+            big = np.zeros((a.shape[0], 2 * a.shape[1]), dtype=a.dtype)
+            big[:, ::2] = a
+            a = big[:, ::2]
+    elif layout == 'bs':
+        a = a.astype(a.dtype.newbyteorder())
+    elif layout != 'plain':
+        raise core.MachineryError('unknown layout %r' % layout)
+    return a
+
+
+def z0(v, on):
+    """A scalar argument as a 0-d array (None stays None)."""
+    return np.array(v) if (on and v is not None) else v
+
+
+# ----------------------------------------------------------------------------------------------
 # (a) computechi2
 # ----------------------------------------------------------------------------------------------
-def run_chi2(A, b, s, conv, order):
+def run_chi2(A, b, s, conv, order, layout='plain'):
     """One real call; returns {'err', 'exc', attr: python floats}."""
     from pydl.pydlutils.math import computechi2
     dt = np.int64 if conv == 'int' else np.float64
@@ -150,7 +185,7 @@ def run_chi2(A, b, s, conv, order):
     try:
         with warnings.catch_warnings():
             warnings.simplefilter('ignore')
-            obj = computechi2(np.array(b, dtype=dt), np.array(s, dtype=dt), Aa)
+            obj = computechi2(lay(np.array(b, dtype=dt), layout), lay(np.array(s, dtype=dt), layout), lay(Aa, layout))
             got = {name: getattr(obj, name) for name in order}
     except Exception as ex:
         return {'err': True, 'exc': '%s: %s' % (type(ex).__name__, str(ex)[:80])}
@@ -264,21 +299,24 @@ def attr_order(rng):
     return o
 
 
-def check_wls(ctx, rep, c, exp, variant, order):
+def check_wls(ctx, rep, c, exp, variant, order, layout=None):
     A, b, s, e = transform(c, exp, variant)
     vname = variant if isinstance(variant, str) else variant[0]
     conv = c['conv'] if not (vname == 'units' and c['conv'] == 'int') else '2d'      # non-integers / beyond int64
-    obs = run_chi2(A, b, s, conv, order)
+    layout = layout or c.get('layout', 'plain')
+    obs = run_chi2(A, b, s, conv, order, layout)
     ctx.evaluated(1, 'wls-%s-%s' % (conv, vname))
+    ctx.cov['parts']['computechi2-layout-' + layout] = ctx.cov['parts'].get('computechi2-layout-' + layout, 0) + 1
     bad = wls_mismatch(obs, e, b, s)
     if bad:
         finding = 'D-C15-1' if (c['conv'] == '1d' and obs['err']) else None
         rep('wls-' + ('1d-raises' if finding else bad.split()[0] + ('' if vname == 'plain' else '-' + vname)),
-            {'what': 'computechi2(A=%s, b=%s, sqivar=%s, conv=%s) [%s variant of the enumerated system]: %s differs from '
+            {'what': 'computechi2(A=%s, b=%s, sqivar=%s, conv=%s, layout=%s) [%s variant of the enumerated system]: %s differs from '
                      'the exact weighted least-squares record (expected acoeff %s chi2 %s, observed %s)' % (
-                         A, b, s, conv, variant, bad, [str(float(x)) for x in e['acoeff']], float(e['chi2']),
+                         A, b, s, conv, layout, variant, bad, [str(float(x)) for x in e['acoeff']], float(e['chi2']),
                          {k: obs.get(k) for k in ('acoeff', 'chi2', 'dof', 'exc')}),
              'kind': 'wls', 'call': {k: c[k] for k in ('A', 'b', 's', 'conv')}, 'variant': variant, 'order': order,
+             'layout': layout,
              'expected': exp},
             finding=finding)
     return obs, bad
@@ -295,21 +333,21 @@ def replay_wls(ctx, rep, rng, c, exp, n):
                     'observed_acoeff': obs.get('acoeff')})
     if not bad:
         # the same system with large values / weights and as a nearly exact fit of a large signal
-        check_wls(ctx, rep, c, exp, 'scaled' if n % 2 else 'highsn', attr_order(rng))
+        check_wls(ctx, rep, c, exp, 'scaled' if n % 2 else 'highsn', attr_order(rng), LAYOUTS[(n // 2) % 4])
         # ... and in tiny / huge units, independently for A, b and sqivar
         check_wls(ctx, rep, c, exp, ('units', rng.randint(-UNITS_KA, UNITS_KA), rng.randint(-UNITS_KB, UNITS_KB),
-                                     rng.randint(-UNITS_KS, UNITS_KS)), attr_order(rng))
+                                     rng.randint(-UNITS_KS, UNITS_KS)), attr_order(rng), LAYOUTS[(n // 3) % 4])
 
 
 # ----------------------------------------------------------------------------------------------
 # (b) pcomp
 # ----------------------------------------------------------------------------------------------
-def run_pcomp(x, std, cov):
+def run_pcomp(x, std, cov, layout='plain'):
     from pydl import pcomp
     try:
         with warnings.catch_warnings():
             warnings.simplefilter('ignore')
-            p = pcomp(np.array(x, dtype=np.float64), standardize=std, covariance=cov)
+            p = pcomp(lay(np.array(x, dtype=np.float64), layout), standardize=std, covariance=cov)
             r = {'err': False, 'exc': '', 'ev': np.array(p.eigenvalues, dtype=float),
                  'coef': np.array(p.coefficients, dtype=float), 'var': np.array(p.variance, dtype=float),
                  'der': np.array(p.derived, dtype=float)}
@@ -368,14 +406,15 @@ def replay_pcomp(ctx, rep, c, exp, n):
     x = c['x']
     for std in (False, True):
         for cov in (False, True):
-            r = run_pcomp(x, std, cov)
+            layout = LAYOUTS[(n + 2 * std + cov) % 4]
+            r = run_pcomp(x, std, cov, layout)
             ctx.evaluated(1, 'pcomp')
             law, dev = pcomp_laws(x, std, cov, exp, r)
             if law:
                 rep('pcomp-' + law.split()[0] + ('-std' if std and law == 'derived' else ''),
-                    {'what': 'pcomp(x=%s, standardize=%s, covariance=%s): law "%s" fails (exact scatter %s)' % (
-                        x, std, cov, law, exp['scatter']),
-                     'kind': 'pcomp', 'x': x, 'std': std, 'cov': cov, 'expected': exp}, finding=dev)
+                    {'what': 'pcomp(x=%s, standardize=%s, covariance=%s, layout=%s): law "%s" fails (exact scatter %s)' % (
+                        x, std, cov, layout, law, exp['scatter']),
+                     'kind': 'pcomp', 'x': x, 'std': std, 'cov': cov, 'layout': layout, 'expected': exp}, finding=dev)
     ctx.validated()
     if not exp['singular']:
         ctx.nontriv(('pcomp', repr(x)))
@@ -399,7 +438,9 @@ def hmfx_apply(S, W, eps, variant, pre, op):
     from pydl.pydlspec2d.spec1d import HMF
     a, g = fmat(pre['a']), fmat(pre['g'])
     epsilon = float(eps) if eps else (None if variant % 2 == 0 else 0)
-    h = HMF(np.array(S, dtype=float), np.array(W, dtype=float), K=g.shape[0], n_iter=1, epsilon=epsilon)
+    layout = LAYOUTS[(variant // 2) % 4]
+    h = HMF(lay(np.array(S, dtype=float), layout), lay(np.array(W, dtype=float), layout), K=z0(g.shape[0], variant % 3 == 0),
+            n_iter=1, epsilon=z0(epsilon, variant % 3 == 0))
     h.a, h.g = a.copy(), g.copy()
     try:
         with warnings.catch_warnings():
@@ -532,17 +573,51 @@ def make_data(rng, N, M, R, nonneg, mask):
     return S, iv
 
 
+def make_spiky(rng, N, M, line=50.0):
+    """Strictly positive low-rank spectra with one-pixel emission lines, random masked pixels."""
+    x = np.linspace(0, 1, M)
+    basis = np.vstack([1.0 + 0.5 * x, np.exp(-0.5 * ((x - 0.3) / 0.15) ** 2), np.exp(-0.5 * ((x - 0.7) / 0.10) ** 2)])
+    basis[1, M // 4] += line
+    basis[2, (2 * M) // 3] += line
+    coef = rng.uniform(0.5, 2.0, size=(N, 3))
+    S = coef @ basis + 0.01 * rng.uniform(0, 1, size=(N, M))
+    iv = rng.uniform(50.0, 150.0, size=(N, M))
+    iv[rng.rand(N, M) < 0.1] = 0.0
+    for j in range(M):
+        if not iv[:, j].any():
+            iv[rng.randint(N), j] = 100.0
+    return S, iv
+
+
+def gen_data(info, rng):
+    if info.get('data') == 'spiky':
+        return make_spiky(rng, info['N'], info['M'])
+    return make_data(rng, info['N'], info['M'], info.get('R', 2), info['nn'], 0.1)
+
+
+def hmf_args(info, S, iv):
+    """The constructor arguments in the array layout / scalar form the trace asks for (values unchanged)."""
+    layout, zz = info.get('layout', 'plain'), info.get('z0', False)
+    return (lay(S, layout), lay(iv, layout)), {'K': z0(info['K'], zz), 'n_iter': z0(info['niter'], zz),
+                                               'epsilon': z0(info['epsilon'], zz)}
+
+
 def stepped_trace(info):
     """Drive the public methods of a real HMF object in the order info['ops'] (a behaviour of the protocol machine)."""
     from pydl.pydlspec2d.spec1d import HMF
     rng = np.random.RandomState(info['dseed'])
     nn, K, ops = info['nn'], info['K'], info['ops']
-    S, iv = make_data(rng, info['N'], info['M'], info['R'], nn, 0.1)
+    S, iv = gen_data(info, rng)
     S0, iv0 = S.copy(), iv.copy()
-    h = HMF(S, iv, K=K, n_iter=info['niter'], nonnegative=nn, epsilon=info['epsilon'])
+    (S, iv), kw = hmf_args(info, S, iv)
+    h = HMF(S, iv, nonnegative=nn, **kw)
     m = Meter(h)
     N, M = S.shape
-    if nn:
+    if nn and info.get('data') == 'spiky':       # start from observed (peaked) spectra, as the k-means start does
+        h.g = np.array(S0[rng.choice(N, K, replace=False)]) + 0.01
+        h.g /= np.sqrt((h.g ** 2).mean(1))[:, None]
+        h.a = rng.rand(N, K) + 0.1
+    elif nn:
         h.g = rng.rand(K, M) + 0.1
         h.a = rng.rand(N, K) + 0.1
     else:
@@ -581,13 +656,14 @@ def stepped_trace(info):
     return ev
 
 
-def recorded_hmf(S, iv, K, niter, seed, nn, epsilon):
+def recorded_hmf(S, iv, K, niter, seed, nn, epsilon, layout='plain', zz=False):
     """Construct a real HMF object whose step methods are wrapped for recording.  Returns solve(): a function that
     runs the real solve() / iterate() and returns (events, a, g, exc) - construction and solution are separate so
     that the global RNG can be used in between."""
     from pydl.pydlspec2d.spec1d import HMF
-    S0, iv0 = S.copy(), iv.copy()
-    h = HMF(S, iv, K=K, n_iter=niter, seed=seed, nonnegative=nn, epsilon=epsilon)
+    S0, iv0 = np.array(S, dtype=float), np.array(iv, dtype=float)
+    S, iv = lay(S, layout), lay(iv, layout)
+    h = HMF(S, iv, K=z0(K, zz), n_iter=z0(niter, zz), seed=z0(seed, zz), nonnegative=nn, epsilon=z0(epsilon, zz))
     m = Meter(h)
     ev = []
     pend = {'model': None}
@@ -658,11 +734,12 @@ def twin_runs(info, seed):
       C     : construct one object, construct and solve an UNRELATED HMF, then solve the first;
               versus a fresh construct-and-solve"""
     rng = np.random.RandomState(info['dseed'])
-    S, iv = make_data(rng, info['N'], info['M'], info.get('R', 2), info['nn'], 0.1)
+    S, iv = gen_data(info, rng)
     adv = np.random.RandomState((info['dseed'] + 1) % 2**31).randint(1, 40, size=3)
 
     def new():
-        return recorded_hmf(S.copy(), iv.copy(), info['K'], info['niter'], seed, info['nn'], info['epsilon'])
+        return recorded_hmf(S.copy(), iv.copy(), info['K'], info['niter'], seed, info['nn'], info['epsilon'],
+                            info.get('layout', 'plain'), info.get('z0', False))
     hist = info.get('hist', 'fresh')
     if hist == 'fresh':
         out = []
@@ -757,8 +834,9 @@ def judge_traces(ctx, rep, traces, info, excs, label):
             what = 'event %d %s is not a step of the HMF protocol: %s' % (k, e.get('op'), {
                 x: e[x] for x in e if x != 'op'})
             cls = 'hmf-' + str(e.get('op'))
-        rep(cls, {'what': 'HMF run (%s) %s' % (info[t], what), 'kind': 'hmf', 'info': info[t], 'event': k,
-                  'events': tr['events'][:k + 1][-6:]})
+        kk = len(tr['events']) if k is None else k
+        rep(cls, {'what': 'HMF run (%s) %s' % (info[t], what), 'kind': 'hmf', 'info': info[t], 'event': kk,
+                  'events': tr['events'][:kk + 1][-6:]})
 
 
 def hmf_traces(ctx, rep, behaviours):
@@ -767,6 +845,11 @@ def hmf_traces(ctx, rep, behaviours):
     traces, infos, excs = [], [], []
 
     def add(info):
+        # array layout / scalar form rotate over the traces (read-only inputs only in the default mode: the
+        # non-negative mode clamps the caller's arrays in place)
+        k = len(infos)
+        info['layout'] = [l for l in LAYOUTS if not (info['nn'] and l == 'ro')][k % (3 if info['nn'] else 4)]
+        info['z0'] = bool((k // 2) % 2)
         trs, ex = build_traces(info, len(traces))
         for tr, e in zip(trs, ex):
             traces.append(tr)
@@ -788,6 +871,19 @@ def hmf_traces(ctx, rep, behaviours):
                     N, M = (14, 28) if ctx.quick else [(14, 28), (20, 40), (24, 36)][rep_i]
                     add({'how': 'solve', 'N': N, 'M': M, 'K': K, 'nn': nn, 'epsilon': epsilon,
                          'seed': rng.randrange(1, 10**6), 'niter': 2 if ctx.quick else 3, 'dseed': rng.randrange(2**31)})
+    # ---- non-negative mode with a smoothness penalty on strictly positive spectra with one-pixel emission lines:
+    #      both factors must stay >= 0 after EVERY astepnn / gstepnn (NonNegKept, judged at every event) ----
+    for eps in (0.1, 1, 10, 100):
+        for K in (1, 2, 3, 4):
+            for (N, M) in ([(16, 40)] if ctx.quick else [(12, 24), (16, 40), (30, 80)]):
+                add({'how': 'solve', 'data': 'spiky', 'N': N, 'M': M, 'K': K, 'nn': True, 'epsilon': eps,
+                     'seed': rng.randrange(0, 10**6), 'niter': 2 if ctx.quick else 5, 'dseed': rng.randrange(2**31)})
+    for (nn, eps, ops) in sorted(behaviours):
+        if nn and eps:
+            for epsilon in (1, 100) if ctx.quick else (0.1, 1, 10, 100):
+                for K in (2, 4) if ctx.quick else (1, 2, 3, 4):
+                    add({'how': 'stepped', 'data': 'spiky', 'N': 16, 'M': 40, 'R': 3, 'K': K, 'nn': True, 'niter': 2,
+                         'epsilon': epsilon, 'ops': list(ops), 'dseed': rng.randrange(2**31)})
     # ---- seed = 0 and non-zero twins under three RNG histories (see twin_runs), on data where an UNSEEDED pair
     #      under the same history really differs (so the law is not vacuous) ----
     for nn in (False, True):
@@ -829,12 +925,12 @@ def record_wls(rng):
     b = [rng.randint(-bv, bv) for _ in range(N)]
     s = [rng.choice([0] + list(range(1, sv + 1)) * 2) for _ in range(N)]
     conv = rng.choice(['2d', '2d', 'int', '1d'] if M == 1 else ['2d', '2d', 'int'])
-    return wls_record(A, b, s, conv, attr_order(rng))
+    return wls_record(A, b, s, conv, attr_order(rng), rng.choice(LAYOUTS))
 
 
-def wls_record(A, b, s, conv, order):
-    obs = run_chi2(A, b, s, conv, order)
-    rec = {'kind': 'wls', 'A': A, 'b': b, 's': s, 'conv': conv, 'order': order}
+def wls_record(A, b, s, conv, order, layout='plain'):
+    obs = run_chi2(A, b, s, conv, order, layout)
+    rec = {'kind': 'wls', 'A': A, 'b': b, 's': s, 'conv': conv, 'order': order, 'layout': layout}
     if obs['err']:
         rec['ret'] = {'err': True, 'exact': False, 'acoeff': [], 'yfit': [], 'chi2': [0, 1], 'dof': 0, 'covar': [], 'var': []}
         rec['exc'] = obs['exc']
@@ -887,7 +983,9 @@ def wlsf_record(mode, N, M, dseed):
     try:
         with warnings.catch_warnings():
             warnings.simplefilter('ignore')
-            out = computechi2(b, sq, A)
+            layout = LAYOUTS[dseed % 4]
+            rec['layout'] = layout
+            out = computechi2(lay(b, layout), lay(sq, layout), lay(A, layout))
             chi2, yfit, covar, dof = float(out.chi2), np.asarray(out.yfit, dtype=float), np.asarray(out.covar), int(out.dof)
     except Exception as ex:
         rec['err'], rec['exc'] = True, '%s: %s' % (type(ex).__name__, str(ex)[:100])
@@ -929,12 +1027,12 @@ def record_pcomp(rng):
         x = [[rng.randint(-xv, xv) for _ in range(nv)] for _ in range(no)]
         if all(len({row[j] for row in x}) > 1 for j in range(nv)):
             break
-    return pcomp_record(x, std, cov)
+    return pcomp_record(x, std, cov, rng.choice(LAYOUTS))
 
 
-def pcomp_record(x, std, cov):
-    r = run_pcomp(x, std, cov)
-    rec = {'kind': 'pcomp', 'x': x, 'std': std, 'cov': cov, 'err': r['err'], 'exc': r['exc'], 'nan': bool(r.get('nan', False)),
+def pcomp_record(x, std, cov, layout='plain'):
+    r = run_pcomp(x, std, cov, layout)
+    rec = {'kind': 'pcomp', 'x': x, 'std': std, 'cov': cov, 'layout': layout, 'err': r['err'], 'exc': r['exc'], 'nan': bool(r.get('nan', False)),
            'ev': [], 'coef': [], 'p': [], 'psq': [], 'var': [], 'der': [], 'sd0': [], 'sd1': [], 'cs0': [], 'cs1': []}
     if r['err'] or r['nan']:
         return rec
@@ -954,9 +1052,10 @@ def pcomp_record(x, std, cov):
     return rec
 
 
-def record_pca(rng, quick):
+def record_pca(rng, quick, k):
     N = 10 if quick else rng.choice([10, 16, 20])
-    return pca_record(N, rng.choice([0, 1]), rng.choice([1, 3]), rng.choice([1, 2, 3]), rng.randrange(2**31))
+    # (the data seed also fixes layout = LAYOUTS[dseed % 4] and the 0-d scalar form: cycle through all of them)
+    return pca_record(N, rng.choice([0, 1]), rng.choice([1, 3]), rng.choice([1, 2, 3]), rng.randrange(2**27) * 8 + k % 8)
 
 
 def pca_record(N, maxiter, niter, nkeep, dseed):
@@ -972,7 +1071,10 @@ def pca_record(N, maxiter, niter, nkeep, dseed):
     try:
         with warnings.catch_warnings():
             warnings.simplefilter('ignore')
-            d = pca_solve(S, iv, maxiter=maxiter, niter=niter, nkeep=nkeep)
+            layout, zz = LAYOUTS[dseed % 4], bool((dseed // 4) % 2)
+            rec['layout'], rec['z0'] = layout, zz
+            S0, iv0 = S.copy(), iv.copy()
+            d = pca_solve(lay(S, layout), lay(iv, layout), maxiter=z0(maxiter, zz), niter=z0(niter, zz), nkeep=z0(nkeep, zz))
         E = np.asarray(d['flux'], dtype=float)              # the returned eigenspectra (nkeep x npix)
         ac = np.asarray(d['acoeff'], dtype=float)
         om = np.asarray(d['outmask'])
@@ -1000,7 +1102,7 @@ def recorded_calls(ctx, rep):
     recs = [record_wls(rng) for _ in range(600 if ctx.quick else 6000)]
     recs += [record_wlsf(rng, k) for k in range(60 if ctx.quick else 600)]
     recs += [record_pcomp(rng) for _ in range(400 if ctx.quick else 4000)]
-    recs += [record_pca(rng, ctx.quick) for _ in range(12 if ctx.quick else 80)]
+    recs += [record_pca(rng, ctx.quick, k) for k in range(16 if ctx.quick else 80)]
     judged = core.validate_records(ctx, 'Trace_LinSolve', recs, chunk=2500, extra_env={'VERIF_MODE': 'recs'})
     nskip = 0
     for k, rec in enumerate(recs):
@@ -1050,6 +1152,14 @@ def run(ctx):
         'chi2): the unchanged code is scale-covariant up to about 2^+-510, where the squares leave the double range',
         'recorded float systems (high signal-to-noise, noise-free, tiny units down to A*1e-17 / sqivar*1e-11, huge units): chi2 >= 0, chi2 vs the weighted residual of the RETURNED '
         'yfit, gradient and covar inverse are harness-measured and judged by TLC as scaled integers (exploration level)',
+        'array properties: every array argument of computechi2, pcomp, HMF and pca_solve is rotated (by case number / seed) '
+        'through plain, READ-ONLY, NON-CONTIGUOUS (strided or Fortran-ordered view) and BYTE-SWAPPED layouts, scalars '
+        '(K, n_iter, seed, epsilon, maxiter, niter, nkeep) also as 0-d arrays; expected values are TLC\'s for the same values '
+        '(LinSolve!LayoutIndependent).  Read-only inputs are left out in HMF non-negative mode only: there iterate() clamps '
+        'the caller\'s arrays in place (the statement promises untouched inputs in the default mode only)',
+        'non-negative HMF with epsilon in {0.1, 1, 10, 100} is also run on strictly positive spectra with one-pixel emission '
+        'lines (K 1..4, full solve() and stepped histories started from observed spectra); both factors >= 0 is judged '
+        'after every astepnn / gstepnn event',
         'HMF seed determinism (results of solve() depend on data, K, seed, mode only) is exercised with seed = 0 and random '
         'seeds under three histories of the global numpy RNG: twins constructed and solved from different RNG states; both '
         'twins constructed first, RNG used, solve A, RNG used, solve B; construct A, solve an unrelated HMF, solve A versus '
@@ -1107,11 +1217,11 @@ def replay(ctx, case):
     ctx.nontriv('b')
     if kind == 'wls':
         c, exp = case['call'], case['expected']
-        obs, bad = check_wls(ctx, rep, c, exp, case.get('variant', 'plain'), case.get('order', ATTRS))
+        obs, bad = check_wls(ctx, rep, c, exp, case.get('variant', 'plain'), case.get('order', ATTRS), case.get('layout'))
         print('replayed computechi2', c, case.get('variant', 'plain'), '\nobserved:', obs, '\nexpected (plain system):', exp,
               '\nmismatch:', bad)
     elif kind == 'pcomp':
-        r = run_pcomp(case['x'], case['std'], case['cov'])
+        r = run_pcomp(case['x'], case['std'], case['cov'], case.get('layout', 'plain'))
         law, dev = pcomp_laws(case['x'], case['std'], case['cov'], case['expected'], r)
         print('replayed pcomp x=%s std=%s cov=%s -> law failing: %s (deviation %s)' % (case['x'], case['std'], case['cov'], law, dev))
         if law:
@@ -1126,11 +1236,11 @@ def replay(ctx, case):
     elif kind == 'record':
         old = case['record']
         if old['kind'] == 'wls':
-            rec = wls_record(old['A'], old['b'], old['s'], old['conv'], old.get('order', ATTRS))
+            rec = wls_record(old['A'], old['b'], old['s'], old['conv'], old.get('order', ATTRS), old.get('layout', 'plain'))
         elif old['kind'] == 'wlsf':
             rec = wlsf_record(old['mode'], old['n'], old['m'], old['dseed'])
         elif old['kind'] == 'pcomp':
-            rec = pcomp_record(old['x'], old['std'], old['cov'])
+            rec = pcomp_record(old['x'], old['std'], old['cov'], old.get('layout', 'plain'))
         else:
             rec = pca_record(old['shape'][0], old['maxiter'], old['niter'], old['nkeep'], old['dseed'])
         judged = core.validate_records(ctx, 'Trace_LinSolve', [rec], extra_env={'VERIF_MODE': 'recs'})
